@@ -91,6 +91,11 @@ func refDump(sb *strings.Builder, e grammar.Expression, indent string, level int
 	}
 }
 
+// failingWriter rejects every write (a closed pipe, a full disk).
+type failingWriter struct{}
+
+func (failingWriter) Write(p []byte) (int, error) { return 0, fmt.Errorf("write failed") }
+
 type c19Case struct {
 	Text   []byte `json:"text"`
 	TextQ  string `json:"text_quoted"`
@@ -116,6 +121,15 @@ func c19Check(t failer, c *c19Case) grammar.Expression {
 		}()
 		return buf.String()
 	}
+	// a dump into a writer that fails must not influence later dumps (same tree, same rendering)
+	func() {
+		defer func() {
+			if r := recover(); r != nil {
+				violation(t, "C19", "TestC19_Dump", c, "ExpressionDump panicked on a failing writer: %v", r)
+			}
+		}()
+		ast.ExpressionDump(failingWriter{}, c.Indent, c.Level)
+	}()
 	d1 := dump()
 	var want strings.Builder
 	refDump(&want, ast, c.Indent, c.Level)
@@ -145,7 +159,7 @@ func TestC19_Dump(t *testing.T) {
 	for _, s := range []grammar.Selector{{}, {Type: grammar.SelectorTypeBexpr}, {Type: grammar.SelectorTypeJsonPointer, Path: []string{""}},
 		{Type: grammar.SelectorTypeBexpr, Path: []string{"a", "b.c", "0"}}, {Type: grammar.SelectorTypeJsonPointer, Path: []string{"a/b", "~", ""}}, {Type: 7, Path: []string{"a"}}} {
 		if got := s.String(); got != refSelector(s) {
-			t.Fatalf("VIOLATION-CANDIDATE property=C19 Selector%+v.String() = %q, want %q", s, got, refSelector(s))
+			violation(t, "C19", "TestC19_Dump", &c19Case{TextQ: fmt.Sprintf("Selector%+v", s)}, "Selector%+v.String() = %q, want %q", s, got, refSelector(s))
 		}
 	}
 	rapid.Check(t, func(t *rapid.T) {
